@@ -26,7 +26,7 @@ use std::time::Duration;
 static TOPIC: AtomicUsize = AtomicUsize::new(0);
 
 /// the backoff law of the stream under test (an optional last token of the case line): `const` 20 ms, `lin` 25 ms × attempt,
-/// `exp` 15 ms × 2^(attempt-1), `cap` 20 ms × 3^(attempt-1) clamped at 70 ms
+/// `exp` 15 ms × 2^(attempt-1), `cap` 20 ms × 3^(attempt-1) clamped at 70 ms, `slow` 700 ms
 static LAW: std::sync::Mutex<String> = std::sync::Mutex::new(String::new());
 
 fn strategy(law: &str, attempts: u32) -> BackoffStrategy {
@@ -34,6 +34,8 @@ fn strategy(law: &str, attempts: u32) -> BackoffStrategy {
         "lin" => BackoffStrategy::linear().with_max_attempts(attempts).with_step(Duration::from_millis(25)),
         "exp" => BackoffStrategy::exponential(2).with_max_attempts(attempts).with_step(Duration::from_millis(15)),
         "cap" => BackoffStrategy::exponential(3).with_max_attempts(attempts).with_step(Duration::from_millis(20)).with_max_duration(Duration::from_millis(70)),
+        // `slow`: every delay is longer than the request timeout of the requestor scenario (300 ms)
+        "slow" => BackoffStrategy::constant().with_max_attempts(attempts).with_step(Duration::from_millis(700)),
         _ => BackoffStrategy::constant().with_max_attempts(attempts).with_step(Duration::from_millis(20)),
     }
 }
@@ -451,6 +453,9 @@ pub fn run(cfg: &Cfg) {
         cases.push("rec exhaust pub 0".into());
         cases.push("rec pub 3 1".into());
         cases.push("rec replier 6 2".into());
+        // a backoff delay longer than the request timeout: reconnecting is not bounded by the timeout of the call that noticed the loss
+        cases.push("rec requestor 2 3 slow".into());
+        cases.push("rec sub 1 2 slow".into());
         // other backoff laws, budgets of one attempt for every kind
         for (i, kind) in ["pub", "sub", "replier", "requestor"].iter().enumerate() {
             let law = ["lin", "exp", "cap", "lin"][i];
@@ -461,7 +466,7 @@ pub fn run(cfg: &Cfg) {
     }
     for c in &cases {
         let mut t: Vec<&str> = c.split(' ').collect();
-        let law = if ["const", "lin", "exp", "cap"].contains(t.last().unwrap()) { t.pop().unwrap() } else { "const" };
+        let law = if ["const", "lin", "exp", "cap", "slow"].contains(t.last().unwrap()) { t.pop().unwrap() } else { "const" };
         *LAW.lock().unwrap() = law.to_string();
         let res = rt.block_on(async {
             if t[1] == "exhaust" { tokio::time::timeout(Duration::from_secs(150), exhaust(&certs, t[2], t[3].parse().unwrap())).await }
